@@ -164,8 +164,9 @@ def main(tier, replay=None):
     # a lookup that finds nothing where the scenario (from the model) has a hit is not C18's business (C12): drop, but count
     nolookup = [t for t in traces if t["hang"] == 2]
     traces = [t for t in traces if t["hang"] != 2]
+    # (thorough tier: 400 k traces are about 11 GB in this process; eight judge JVMs at a time keep the total well inside 64 GB)
     jr = C.judge("OverlapResultTrace", traces, run.dir, consts=consts, shard=max(200, len(traces) // 16 + 1), spec="TraceSpec",
-                 header={"ops": ops})
+                 header={"ops": ops}, jobs=8 if tier == "thorough" else C.NCPU)
     by = {t["tid"]: t for t in traces}
     n = C.report(run, "C18", jr["V"], by)
     for m in jr["M"][:5]:
